@@ -452,6 +452,10 @@ def classify(case, out, kind, sub=None):
         return None
     if sub is not None:
         s = out["steps"][sub]
+        oc = s["out"].get("cols") or (s["out"].get("v") or {}).get("cols", []) if s["out"]["t"] in ("item", "items", "frame") else []
+        if (case["cls_name"] == "OsuSvList" and s["op"]["op"] in ("getint", "iter", "append") and 4 in (oc or [])
+                and 4 not in s["before"]["cols"]):
+            return "osusv-item-carries-undeclared-metronome"
         if s["op"]["op"] in ("last", "firstlast") and s["out"]["t"] == "exc" and not s["before"]["rows"]:
             return "holdlist-last-offset-empty-raises"
     return None
